@@ -3,7 +3,7 @@ import z3
 from . import smt
 from .values import (Unsupported, Raised, ModuleVal, ClassVal, FuncVal, BoundMethod, PropertyVal,
                      Builtin, Obj, ExcVal, ListVal, NamedTupleClass, NamedTupleVal, StructVal,
-                     Opaque, DictVal, SetVal, Stream, SeqVal, Packed, GenVal, IterSource,
+                     Opaque, DictVal, SetVal, Stream, SeqVal, Packed, GenVal, IterSource, HList,
                      is_intlike, is_byteslike, is_strlike, int_term, bytes_term)
 
 
@@ -20,6 +20,8 @@ def value_kind(v):
         return 'tuple'
     if isinstance(v, ListVal):
         return 'list'
+    if isinstance(v, HList):
+        return 'hlist'
     if isinstance(v, DictVal):
         return 'dict'
     if isinstance(v, SetVal):
@@ -195,6 +197,8 @@ def getitem(it, obj, key):
         if k < -len(items) or k >= len(items):
             it.raise_exc('IndexError', 'index out of range')
         return items[k]
+    if isinstance(obj, HList):
+        return hlist_getitem(it, obj, key)
     if isinstance(obj, bytes) and not isinstance(key, slice) and not smt.is_z3(key):
         if key < -len(obj) or key >= len(obj):
             it.raise_exc('IndexError', 'index out of range')
@@ -224,6 +228,52 @@ def getitem(it, obj, key):
     if isinstance(obj, Opaque):
         raise Unsupported('subscript of opaque %s' % obj.name)
     raise Unsupported('subscript of %r' % (obj,))
+
+
+def hlist_getitem(it, obj, key):
+    """positional access / slicing of an HList at its known elements only"""
+    from .values import Segment
+    parts = obj.parts
+    n = len(parts)
+    has_seg = bool(obj.segments())
+    npre = 0
+    while npre < n and not isinstance(parts[npre], Segment):
+        npre += 1
+    nsuf = 0
+    while nsuf < n and not isinstance(parts[n - 1 - nsuf], Segment):
+        nsuf += 1
+
+    def pos(x, default):
+        """index into `parts` for a slice bound"""
+        if x is None:
+            return default
+        c = smt.as_concrete_int(x)
+        if c is None:
+            raise Unsupported('symbolic slice bound on a list with symbolic segments')
+        if not has_seg:
+            return max(0, n + c) if c < 0 else min(c, n)
+        if c >= 0:
+            if c <= npre:
+                return c
+            raise Unsupported('slice bound %d beyond the known prefix of %r' % (c, obj))
+        if -c <= nsuf:
+            return n + c
+        raise Unsupported('slice bound %d beyond the known suffix of %r' % (c, obj))
+    if isinstance(key, slice):
+        if key.step is not None:
+            raise Unsupported('list slice with step')
+        a, b = pos(key.start, 0), pos(key.stop, n)
+        return HList(parts[a:b])
+    k = smt.as_concrete_int(key)
+    if k is None:
+        raise Unsupported('symbolic index into a list with symbolic segments')
+    if k >= 0 and k < npre:
+        return parts[k]
+    if k < 0 and -k <= nsuf:
+        return parts[n + k]
+    if not has_seg:
+        it.raise_exc('IndexError', 'list index out of range')
+    raise Unsupported('index %d into the symbolic segment of %r' % (k, obj))
 
 
 def setitem(it, obj, key, v):
